@@ -21,9 +21,10 @@ def gen_value(rng, kind, name, depth):
             return ("str", str(rng.choice([0, 1, 7, 42, 65535])).encode())
         if name == b"f":
             return ("str", rng.choice(FLOATS))
-        return ("str", rng.choice([b"", b"v1", b"v2", b"long value", b"x"]))
+        # (values that differ only in the case of a letter are different values)
+        return ("str", rng.choice([b"", b"v1", b"v2", b"long value", b"x", b"V1", b"Long Value", b"X"]))
     if kind == "list":
-        return ("list", rng.choice([[], [b"a"], [b"a", b"b"], [b"a", b"b", b"c"], [b"b", b"a"], [b"a", b"x", b"c"]]))
+        return ("list", rng.choice([[], [b"a"], [b"a", b"b"], [b"a", b"b", b"c"], [b"b", b"a"], [b"a", b"x", b"c"], [b"A"], [b"a", b"B"], [b"A", b"b", b"c"], [b"A", b"B"]]))
     if kind == "inaddr":
         return ("inaddr", rng.choice([b"h1", b"h2", b"::1"]), rng.choice([b"80", b"81", b"http"]))
     return ("obj", gen_obj(rng, depth - 1))
